@@ -643,6 +643,95 @@ def selftest(ctx):
     r.instance("fixture:wire-driven-recursion-found", any("fixtures::decode::nested" in c for c in comps), "SCCs on fixtures: %s" % comps, nontrivial=False)
 
 
+EXHAUSTIVE = ("count", "last", "for_each", "fold", "sum", "product", "max", "min", "max_by", "min_by", "max_by_key", "min_by_key", "extend", "partition", "unzip", "cycle", "rev", "collect_vec", "sorted")
+
+
+def r8(ctx, facts, pred):
+    """termination: a parser stream that can answer `Some(Err(..))` again and again (no progress on malformed input) must not be
+    drained by a consumer that only stops at `None`"""
+    r = ctx.rule("R8", "an error-yielding `iter::from_fn` stream over wire data either latches after its first error or is never drained by an exhaustive consumer (count / last / fold ...)", floor=1)
+    from ..util import dj_of, field_slice, in_set
+    n = 0
+    for p in sorted(pred):
+        b = facts.body(p)
+        if b is None or b.crate not in ("scylla_cql", "scylla_cql_core", "scylla"):
+            continue
+        for bb, c in b.calls():
+            if bb not in b.live_blocks or not (c.name or "").endswith("iter::sources::from_fn::from_fn"):
+                continue
+            sd = b.single_def(c.args[0][1][0]) if c.args and c.args[0][0] in ("c", "m") else None
+            if not (sd and sd[0] == "stmt" and sd[3][0] == "agg" and sd[3][1][0] == "closure"):
+                continue
+            cb = facts.body(sd[3][1][1])
+            if cb is None or "Result<" not in cb.local_ty(0):
+                continue
+            n += 1
+            dj = dj_of(cb, facts)
+            # exits that may hand out an error: `Some(x)` where x is not known to be Ok
+            err_exits = []
+            for bb2 in sorted(cb.live_blocks):
+                for j, st in enumerate(cb.stmts(bb2)):
+                    if st[0] == "A" and st[1][0] == 0 and not st[1][1] and st[2][0] == "agg" and st[2][1][0] == "adt" and st[2][1][2] == "Some":
+                        op = st[2][2][0]
+                        maybe_err = True
+                        if op[0] in ("c", "m"):
+                            d = cb.single_def(op[1][0])
+                            if d and d[0] == "stmt" and d[3][0] == "agg" and d[3][1][0] == "adt" and d[3][1][2] == "Ok":
+                                maybe_err = False
+                        if maybe_err:
+                            err_exits.append(bb2)
+            if not err_exits:
+                continue
+            # latched: every error exit passes a store of a constant into the closure's own environment (a `done` flag), and a
+            # `None` exit exists in states where that place holds the stored value
+            env_stores = {}
+            for bb2 in sorted(cb.live_blocks):
+                for st in cb.stmts(bb2):
+                    if st[0] == "A" and st[1][0] == 1 and st[1][1]:
+                        env_stores.setdefault(dj.canon.path(st[1]), set()).add(bb2)
+                t = cb.term(bb2)
+                if t[0] == "call" and t[3][0] == 1 and t[3][1]:
+                    env_stores.setdefault(dj.canon.path(t[3]), set()).add(bb2)
+            latched = False
+            none_exits = [(bb2, j) for bb2 in sorted(cb.live_blocks) for j, st in enumerate(cb.stmts(bb2))
+                          if st[0] == "A" and st[1][0] == 0 and not st[1][1] and st[2][0] == "agg" and st[2][1][0] == "adt" and st[2][1][2] == "None"]
+            for path, bbs in env_stores.items():
+                # (a) every error exit has written the flag on its way ...
+                if not all(e not in dj.feasible_reach(0, removed_nodes=list(bbs)) for e in err_exits):
+                    continue
+                # (b) ... and the closure answers None where the flag is set
+                key_ = ("val", path)
+                if any(sts and all(in_set(stt.get(key_), {1}) for stt in sts) for sts in (dj.states_before_stmt(bb2, j) for bb2, j in none_exits)):
+                    latched = True
+            key = fn_short(b.path)
+            if latched:
+                r.instance("stream-latches-after-error:" + key, True, "the closure records its first error in its environment and answers None afterwards", c.span)
+                continue
+            # not latched: look for exhaustive consumers of the function's result in its callers (and in the function itself)
+            outer = b
+            while outer.kind == "Closure" and outer.parent and facts.body(outer.parent) is not None:
+                outer = facts.body(outer.parent)
+            consumers = []
+            users = [outer] + [ub for ub, _ in facts.callers_of(outer.path)]
+            for ub in users:
+                for bb3, c3 in ub.calls():
+                    if bb3 not in ub.live_blocks or not c3.args:
+                        continue
+                    nm = (c3.decl or c3.name or "").split("::")[-1]
+                    is_collect = nm == "collect" and not ub.local_ty(c3.dest[0]).startswith(("core::result::Result<", "core::option::Option<"))
+                    if nm not in EXHAUSTIVE and not is_collect:
+                        continue
+                    _, cs, _ = field_slice(ub, c3.args[0])
+                    if any((x.name or "") == outer.path or (x.callee.get("res") or "") == outer.path for x in cs) or (ub.path == outer.path and any(x.bb == bb for x in cs)):
+                        consumers.append((ub, c3, nm))
+            r.instance("unlatched-error-stream-is-not-drained:" + key, not consumers,
+                       "the iterator built by iter::from_fn in %s can answer Some(Err(..)) on every call once the input is malformed (it makes no progress and never answers None), and %s drains it with `%s()`: "
+                       "decoding a frame whose custom type name is truncated never terminates" % (key, ", ".join(sorted({fn_short(u.path) for u, _, _ in consumers})) or "nobody", "/".join(sorted({m for _, _, m in consumers})) or "-"),
+                       consumers[0][1].span if consumers else c.span)
+    if n == 0:
+        r.instance("no-from_fn-streams", True, "no iter::from_fn stream over wire data in the decode set", None, nontrivial=False)
+
+
 def inline_view_(facts):
     from ..inline import inline_view
     return inline_view(facts)
@@ -710,7 +799,7 @@ def check(ctx):
     for p, n in per.items():
         anc.instance("entry:" + p, n > 0, "%d bodies match" % n, nontrivial=False)
     ctx.extra["decode_reachable_bodies"] = len(pred)
-    for fn in (lambda: r1(ctx, facts, cg, pred), lambda: r2(ctx, facts), lambda: r3(ctx, facts, cg, pred), lambda: r4(ctx, facts, cg, pred), lambda: r5(ctx, facts), lambda: r6(ctx, facts), lambda: r7(ctx, inline_view_(facts))):
+    for fn in (lambda: r1(ctx, facts, cg, pred), lambda: r2(ctx, facts), lambda: r3(ctx, facts, cg, pred), lambda: r4(ctx, facts, cg, pred), lambda: r5(ctx, facts), lambda: r6(ctx, facts), lambda: r7(ctx, inline_view_(facts)), lambda: r8(ctx, facts, pred)):
         try:
             fn()
         except AnchorLost as ex:
